@@ -193,7 +193,7 @@ func storeHostile(st *Store, hc *HostileCase) (map[string]cid.Cid, error) {
 func hamtTable(st *Store, hc *HostileCase, ids map[string]cid.Cid) []M {
 	idx := map[string]int{}
 	for i, hb := range hc.Blocks {
-		idx[key(ids[hb.ID])] = i + 1
+		idx[ids[hb.ID].KeyString()] = i + 1 // the full CID: an empty raw block and an empty dag-pb node share their multihash
 	}
 	keyID := map[string]int{}
 	for i, k := range hc.Names {
@@ -258,7 +258,7 @@ func hamtTable(st *Store, hc *HostileCase, ids map[string]cid.Cid) []M {
 		li := pbn.Links.Iterator()
 		for !li.Done() {
 			_, l := li.Next()
-			m := M{"hasName": l.Name.Exists(), "cls": "short", "name": 0, "target": idx[key(l.Hash.Link().(cidlink.Link).Cid)]}
+			m := M{"hasName": l.Name.Exists(), "cls": "short", "name": 0, "target": idx[l.Hash.Link().(cidlink.Link).Cid.KeyString()]}
 			if l.Name.Exists() {
 				nm := l.Name.Must().String()
 				switch {
@@ -274,6 +274,74 @@ func hamtTable(st *Store, hc *HostileCase, ids map[string]cid.Cid) []M {
 		e["links"] = links
 	}
 	return out
+}
+
+// fileTable describes every stored block of a hostile file case the way spec/FileHostileOps.tla wants it (again from the
+// stored bytes through independent decoders).  ok is false when a number does not fit TLC's integers.
+func fileTable(st *Store, hc *HostileCase, ids map[string]cid.Cid) ([]M, bool) {
+	idx := map[string]int{}
+	for i, hb := range hc.Blocks {
+		idx[ids[hb.ID].KeyString()] = i + 1 // the full CID: an empty raw block and an empty dag-pb node share their multihash
+	}
+	fits := true
+	small := func(v int64) int64 {
+		if v > 1<<26 || v < -(1<<26) {
+			fits = false
+			return 0
+		}
+		return v
+	}
+	var out []M
+	for _, hb := range hc.Blocks {
+		c := ids[hb.ID]
+		raw, _ := st.Get(c)
+		e := M{"kind": "raw", "typ": -1, "len": len(raw), "hasFS": false, "fsize": 0, "bsizes": []int64{}, "links": []M{}}
+		out = append(out, e)
+		if c.Prefix().Codec != cid.DagProtobuf {
+			continue
+		}
+		e["len"] = 0
+		nb := dagpb.Type.PBNode.NewBuilder()
+		if err := dagpb.DecodeBytes(nb, raw); err != nil {
+			e["kind"] = "baddata"
+			continue
+		}
+		pbn := nb.Build().(dagpb.PBNode)
+		if !pbn.Data.Exists() {
+			e["kind"] = "nodata"
+		} else {
+			var d pb.Data
+			if err := proto.Unmarshal(pbn.Data.Must().Bytes(), &d); err != nil || d.Type == nil {
+				e["kind"] = "baddata"
+			} else {
+				e["kind"] = "unixfs"
+				e["typ"] = int(d.GetType())
+				e["len"] = len(d.Data)
+				if d.Filesize != nil {
+					e["hasFS"] = true
+					e["fsize"] = small(int64(*d.Filesize))
+				}
+				bs := []int64{}
+				for _, v := range d.Blocksizes {
+					bs = append(bs, small(int64(v)))
+				}
+				e["bsizes"] = bs
+			}
+		}
+		links := []M{}
+		li := pbn.Links.Iterator()
+		for !li.Done() {
+			_, l := li.Next()
+			tc := l.Hash.Link().(cidlink.Link).Cid
+			m := M{"target": idx[tc.KeyString()], "raw": tc.Prefix().Codec == cid.Raw, "hasT": l.Tsize.Exists(), "tsize": 0}
+			if l.Tsize.Exists() {
+				m["tsize"] = small(l.Tsize.Must().Int())
+			}
+			links = append(links, m)
+		}
+		e["links"] = links
+	}
+	return out, fits
 }
 
 // ---- exercising a node through every operation, under recover and budgets ----
@@ -470,6 +538,7 @@ func exerciseNode(n ipld.Node, names []string, budget int, only ...string) []opR
 }
 
 func runHostileCase(hc *HostileCase, tr *Tr) error {
+	fhH, fhRoot := []M{}, 0
 	var hmH []M
 	var hmDigits [][]int
 	hmRoot := 0
@@ -515,6 +584,17 @@ func runHostileCase(hc *HostileCase, tr *Tr) error {
 		}
 		root := ids[hc.Root]
 		rootBytes, _ = st.Get(root)
+		// the block table for spec/FileHostileOps.tla (file roots whose numbers fit TLC's integers)
+		if rb := hc.block(hc.Root); rb != nil && rb.U != nil && rb.U.Type != nil && (*rb.U.Type == 2 || *rb.U.Type == 0) && len(hc.Ops) == 0 {
+			if t, fits := fileTable(st, hc, ids); fits {
+				fhH = t
+				for i, hb := range hc.Blocks {
+					if hb.ID == hc.Root {
+						fhRoot = i + 1
+					}
+				}
+			}
+		}
 		// the block table for spec/HostileOps.tla (sharded-directory cases only) and every key's buckets at the root's width
 		if rb := hc.block(hc.Root); rb != nil && rb.U != nil && rb.U.Type != nil && *rb.U.Type == 5 && len(hc.Ops) == 0 {
 			hmH = hamtTable(st, hc, ids)
@@ -622,12 +702,16 @@ func runHostileCase(hc *HostileCase, tr *Tr) error {
 		}
 	}
 	tr.Emit(M{"ev": "reify", "adl": adlRec, "cls": hc.Class, "variant": hc.Open, "res": res, "kind": kind, "subSame": subSame, "reenc": reenc,
-		"H": hmH, "hroot": hmRoot, "hdigits": hmDigits,
+		"H": hmH, "hroot": hmRoot, "hdigits": hmDigits, "FH": fhH, "fhroot": fhRoot,
 		"e": res, "info": info, "isADL": subSame || reenc || res == "file" || res == "dir" || res == "hamtdir" || res == "linkmap"})
 	if out != "value" || node == nil || res == "timeout" {
 		return nil
 	}
+	// the work allowed is proportional to what the case was given: its blocks and the links they carry
 	nblocks := len(hc.Blocks) + 1
+	for _, hb := range hc.Blocks {
+		nblocks += len(hb.Links)
+	}
 	budget := 50*nblocks + 200
 	for _, r := range exerciseNode(node, hc.Names, budget, hc.Ops...) {
 		ev := M{"ev": "hop", "op": r.Op, "out": r.Out, "e": r.Out, "steps": r.Steps, "budget": budget, "info": r.Info, "key": r.Key,
